@@ -2,6 +2,7 @@ import Ruint.Lemmas.InvRing
 import Ruint.Lemmas.GenMulWrap
 import Ruint.Lemmas.GenInvRing
 import Ruint.Gen.InvRingConsts
+import Ruint.Lemmas.GenUintModMul
 
 /-!
 # C02 — multiplication is exact: wrapping, overflow flag, widening product, ring inverse
@@ -214,5 +215,14 @@ theorem gen_checked_saturating_mul_eq (bits : ℕ) (hN : nlimbs bits < 2 ^ 62) (
 theorem gen_inv_ring_eq (bits : ℕ) (hN : nlimbs bits < 2 ^ 63) (a : List ℕ) (ha : Canon bits a) :
     Ruint.Gen.uint_inv_ring (nlimbs bits + 1) bits (nlimbs bits) a = invRing bits a :=
   Ruint.GenInvRing.inv_ring_eq bits hN a ha.1
+
+/-- `widening_mul` as regenerated from `src/mul.rs` (both `assert_eq!`s: `none` = panic; the generated `addmul` into a zero
+    result of the caller-chosen limb count) equals the model of `widening_mul_generic`, for all four const parameters. -/
+theorem gen_widening_mul_eq (bits bitsRhs bitsRes limbsRes : ℕ) (hB : bits + bitsRhs + 63 < 2 ^ 64) (a b : List ℕ)
+    (ha : Ruint.AllLt a) (hb : Ruint.AllLt b) (hla : a.length < 2 ^ 64) (hlb : b.length < 2 ^ 64) (f : ℕ)
+    (hlen : limbsRes + a.length + b.length < f) :
+    Ruint.Gen.uint_widening_mul f bitsRhs (nlimbs bitsRhs) bitsRes limbsRes bits (nlimbs bits) a b
+      = Ruint.Mul.wideningMulG bits bitsRhs bitsRes limbsRes a b :=
+  Ruint.GenUintMod.widening_mul_eq bits bitsRhs bitsRes limbsRes hB a b ha hb hla hlb f hlen
 
 end Ruint.C02
